@@ -200,7 +200,8 @@ type l1run struct {
 	forkLive    bool                         // the fork's txs are precommitted on the replica and not yet discarded
 	lastDiscard uint64                       // first id of the latest discard: the tx log holds discarded bytes until this id is committed
 	altLeft     int
-	dead        bool // schedule abandoned (watchdog / replica cannot be repaired)
+	trail       []string // the last steps of the schedule (diagnosis only)
+	dead        bool     // schedule abandoned (watchdog / replica cannot be repaired)
 	stats       map[string]int
 }
 
@@ -772,7 +773,7 @@ func (s *l1run) deliverNext(why string) {
 		if isCtxErr(res.err) {
 			s.c.Inconclusive(fmt.Sprintf("[%s] ReplicateTx of the next honest tx %d did not return within %s", s.cf.Name, id, opTimeout))
 		} else {
-			s.viol("replicatetx/honest-next-export-refused/"+why, fmt.Sprintf("replica at %s: the honest export of tx %d, offered alone, was refused: %v", st, id, res.err), map[string][]byte{"export.bin": s.exports[id]})
+			s.viol("replicatetx/honest-next-export-refused/"+errClass(res.err), fmt.Sprintf("replica at %s: the honest export of tx %d, offered alone (%s), was refused: %v; last steps: %s", st, id, why, res.err, strings.Join(s.trail, " | ")), map[string][]byte{"export.bin": s.exports[id]})
 		}
 		s.dead = true
 		return
@@ -951,10 +952,14 @@ func (s *l1run) restart(limit uint64) {
 	} else if h, err := s.rep.ReadTxHeader(maxOK, true, false); maxOK > after.com && (err != nil || h.Alh() != s.alh(maxOK)) {
 		lost = true // the id is there, but it is a discarded tx that came back, not the acknowledged one
 	}
+	emb := ""
+	if s.cf.REmbedded {
+		emb = "/embedded-values" // the loader of precommitted txs at Open does not skip the embedded-values prefix
+	}
 	if lost && dirty {
 		s.viol("restart/acknowledged-precommit-lost-after-discard", fmt.Sprintf("txs since %d were discarded, then ReplicateTx acknowledged (durable precommit) the primary's txs up to %d; after a clean restart the replica is at %s: acknowledged precommits are gone (the tx log still held the discarded txs, reloading stops at them)", s.lastDiscard, maxOK, after), nil)
 	} else if lost {
-		s.viol("restart/acknowledged-precommit-lost", fmt.Sprintf("ReplicateTx acknowledged up to tx %d before a clean restart; afterwards the replica is at %s", maxOK, after), nil)
+		s.viol("restart/acknowledged-precommit-lost"+emb, fmt.Sprintf("ReplicateTx acknowledged up to tx %d before a clean restart; afterwards the replica is at %s", maxOK, after), nil)
 	}
 	// the reloaded precommitted txs must come from what was delivered: the primary's, or (after a discard, documented) the fork's
 	for id := after.com + 1; id <= after.pre; id++ {
@@ -985,6 +990,7 @@ func (s *l1run) restart(limit uint64) {
 	if midflight {
 		kind = "mid-flight"
 	}
+	s.trail = append(s.trail, fmt.Sprintf("restart(%s) %s -> %s -> %s", kind, before, after, now))
 	s.c.Distinct("L1/restart/" + kind)
 }
 
@@ -1205,6 +1211,7 @@ func (s *l1run) alterBatch(count int) {
 			s.stats["accepted-diverged/"+a.Field]++
 			// repair so that the schedule can go on
 			s.noteDropped(id, after.preAlh)
+			s.trail = append(s.trail, fmt.Sprintf("diverged tx %d accepted (%s) and discarded", id, a.Class))
 			if after.com <= before.pre {
 				if _, err := s.discardSince(before.pre + 1); err != nil {
 					s.c.Note(fmt.Sprintf("[%s] cannot discard the diverged tx: %v", s.cf.Name, err))
@@ -1476,6 +1483,10 @@ func runL1(c *fw.Ctx, cf l1cfg) {
 			}
 		}
 		a := s.r.IntN(100)
+		s.trail = append(s.trail, fmt.Sprintf("#%d a=%d pre=%d com=%d lastDiscard=%d", step, a, st.pre, st.com, s.lastDiscard))
+		if len(s.trail) > 14 {
+			s.trail = s.trail[1:]
+		}
 		if debug {
 			fmt.Fprintf(os.Stderr, "%s step %d action %d state %s t=%s\n", cf.Name, step, a, st, time.Since(t0))
 		}
